@@ -56,7 +56,9 @@ theorem lt_fin (s1 s2 : Bool) (m1 m2 : Nat) (e1 e2 : Int) :
   by_cases h1 : a < b
   · rw [if_pos h1, decide_eq_true h1]
   · rw [if_neg h1, decide_eq_false h1]
-    split <;> rfl
+    by_cases h2 : a = b
+    · rw [if_pos h2]
+    · rw [if_neg h2]
 
 theorem eq_fin (s1 s2 : Bool) (m1 m2 : Nat) (e1 e2 : Int) :
     eq (.fin s1 m1 e1) (.fin s2 m2 e2) = decide (scaled s1 m1 e1 (emin e1 e2) = scaled s2 m2 e2 (emin e1 e2)) := by
@@ -84,7 +86,12 @@ theorem scaled_sign (s : Bool) (m : Nat) (e em : Int) :
   · subst hm; cases s <;> simp
   · have : 0 < m * 2^(e - em).toNat := Nat.mul_pos (by omega) hp
     generalize m * 2^(e - em).toNat = v at this
-    cases s <;> simp only [Bool.false_eq_true, if_false, if_true] <;> omega
+    cases s
+    · simp only [Bool.false_eq_true, if_false, false_or, false_and, hm]
+      exact ⟨⟨fun h => by omega, fun h => h.elim⟩, ⟨fun h => by omega, fun h => h.elim⟩, ⟨fun h => by omega, fun h => h.elim⟩⟩
+    · simp only [if_true, true_or, true_and, hm]
+      exact ⟨⟨fun _ => trivial, fun _ => by omega⟩, ⟨fun _ => hm, fun _ => by omega⟩,
+        ⟨fun h => by omega, fun h => h.elim⟩⟩
 
 /-- `f <= 0` for a finite value -/
 theorem le_zero_fin (s : Bool) (m : Nat) (e : Int) (he : -1074 ≤ e) :
